@@ -102,7 +102,7 @@ func b64(s string) string { return base64.StdEncoding.EncodeToString([]byte(s)) 
 
 func genCreds(r *lib.RNG, c *conf) credCase {
 	right := "Basic " + b64(c.user+":"+c.pass)
-	switch r.Intn(20) {
+	switch r.Intn(22) {
 	case 0, 1, 2, 3, 4:
 		return credCase{name: "right", header: []string{right}, ok: true}
 	case 5:
@@ -137,6 +137,26 @@ func genCreds(r *lib.RNG, c *conf) credCase {
 		return credCase{name: "scheme-case", header: []string{lib.Pick(r, []string{"basic ", "BASIC ", "bAsIc "}) + b64(c.user+":"+c.pass)}, ok: true}
 	case 15:
 		return credCase{name: "right-twice", header: []string{right, right}, ok: true}
+	case 20, 21:
+		// the base64 text of the right credentials in another letter case: a different octet string
+		enc := []byte(b64(c.user + ":" + c.pass))
+		alt := append([]byte(nil), enc...)
+		switch r.Intn(3) {
+		case 0:
+			alt = []byte(strings.ToUpper(string(enc)))
+		case 1:
+			alt = []byte(strings.ToLower(string(enc)))
+		default:
+			for i := range alt {
+				if r.Bool() && (alt[i]|0x20) >= 'a' && (alt[i]|0x20) <= 'z' {
+					alt[i] ^= 0x20
+				}
+			}
+		}
+		if string(alt) != string(enc) {
+			return credCase{name: "base64-letter-case", header: []string{lib.Pick(r, []string{"Basic ", "BASIC "}) + string(alt)}}
+		}
+		return credCase{name: "wrong-user", header: []string{"Basic " + b64("x"+c.user+":"+c.pass)}}
 	case 18, 19:
 		// the colon moved: user and password differ although their concatenation is the same
 		cat := c.user + c.pass
@@ -443,7 +463,7 @@ func (q *reqSpec) raw(r *lib.RNG, scheme string) []byte {
 }
 
 func main() {
-	run := lib.Start("C04", "generated configurations (basic-auth on/off with passwords containing ':' '@' or empty; deny-domains include/exclude lists; proxy-localhost deny/allow; allow-time-frame off/covers now/excludes now; upstream proxy; MITM; generated hosts file with mixed-case and IPv6 loopback aliases) x generated requests (GET/POST/PUT/HEAD/DELETE/CONNECT, origin/absolute form, HTTP/1.0 and 1.1, 19 credential variants (incl. the colon moved inside user+password), denied names in any case, 13 loopback/unspecified literals, hosts aliases in any case, with/without port, several requests per keep-alive connection, inner requests of MITM'd tunnels); reference decision function + dial log + accept/byte ledgers of every scripted peer; distinct = (config controls, method, host class, credential variant, position, inner) signatures")
+	run := lib.Start("C04", "generated configurations (basic-auth on/off with passwords containing ':' '@' or empty; deny-domains include/exclude lists; proxy-localhost deny/allow; allow-time-frame off/covers now/excludes now; upstream proxy; MITM; generated hosts file with mixed-case and IPv6 loopback aliases) x generated requests (GET/POST/PUT/HEAD/DELETE/CONNECT, origin/absolute form, HTTP/1.0 and 1.1, 20 credential variants (incl. the colon moved inside user+password, the base64 text in another letter case), denied names in any case, 13 loopback/unspecified literals, hosts aliases in any case, with/without port, several requests per keep-alive connection, inner requests of MITM'd tunnels); reference decision function + dial log + accept/byte ledgers of every scripted peer; distinct = (config controls, method, host class, credential variant, position, inner) signatures")
 	root := run.RNG()
 	// The whole process runs in a local zone with a non-whole-hour offset, chosen so that the
 	// local wall clock is a few minutes past the hour (no hour roll-over during the run) while
